@@ -12,7 +12,20 @@ relationship checker / log sink / metrics sink; N concurrent evaluate_async call
 (asyncio.gather) and concurrent evaluate_sync calls from threads on two engines with
 different policies and different relationship checkers must equal the sequential results;
 policy and request objects must be deep-equal and identical (same nested containers)
-afterwards.
+afterwards.  Non-mutation is also exercised with collaborators that edit in place what the engine hands them (kind
+"hostile": a log sink that overwrites/deletes/adds keys in payload["env"] subject/resource attrs, context and role
+list; the shipped DecisionLogger(redact_in_place=True) with redactions over every attribute path of the requests or
+with the default redactions; a role resolver editing the list it is given; an obligation checker editing the raw
+decision; a relationship checker editing its context dict; a metrics sink editing the labels — sync and async
+versions, under evaluate_async, evaluate_sync in a plain thread / the main thread / inside a running loop / a worker
+thread of a loop): each request is evaluated twice on one Guard; the caller's Subject/Action/Resource/Context and
+the policy must equal their deep snapshots and keep their containers, the second decision must equal the first and
+both the decision of a fresh Guard with inert collaborators.  Edits of the containers the engine assembles (level
+"top") must never reach the caller: violation.  Edits of containers nested inside attribute values / obligation
+objects / relationship-context values (level "nested") reach the caller on the current tree: open finding tagged
+"c14-nested-alias" in KNOWN_FINDINGS.json (known only when the observed change is confined to such nested
+containers; anything else is a violation).  Not exercised: an obligation checker editing the Context object (it is
+handed the caller's own object by contract).
 
 Part (b), deadlock watchdog: every blocking entry point (Guard.evaluate_sync,
 HotReloader.check_and_reload / refresh_if_needed / poll_once / start / stop) is called in
@@ -32,6 +45,7 @@ import copy
 import dataclasses
 import json
 import os
+import re
 import subprocess
 import sys
 import threading
@@ -780,6 +794,296 @@ def run_flavours(case, T):
     return out
 
 
+# ---- collaborators that edit in place whatever they are handed --------------------------------------------------
+# The ports do not forbid it, and the shipped DecisionLogger(redact_in_place=True) does it by design: what a
+# collaborator is handed must therefore not be (part of) the caller's request objects, the policy, or anything a
+# later evaluation reads.  Every collaborator here first computes the answer its inert counterpart gives, then edits.
+# Level "top": the containers the engine assembles (log payload, env, env.subject/resource, the attrs/context
+# mappings themselves, role list, raw decision's top-level keys, relationship context's top-level keys, labels).
+# Level "nested": only containers found INSIDE attribute values / obligation objects.
+
+HOSTILE_FLAVOURS = ["async_run", "sync_plain", "sync_main", "sync_inloop", "sync_worker_of_loop"]
+MARK = "[hostile]"
+
+
+def _edit_top(m, edits):
+    """overwrite every value of a mapping, delete a key, add a key"""
+    if not isinstance(m, dict):
+        return
+    keys = list(m)
+    for k in keys:
+        m[k] = MARK
+    if keys:
+        del m[keys[0]]
+    m["hostile_added"] = MARK
+    edits.append("top")
+
+
+def _edit_inner(x, edits):
+    """edit a container and everything inside it"""
+    if isinstance(x, dict):
+        for k in list(x):
+            if isinstance(x[k], (dict, list)):
+                _edit_inner(x[k], edits)
+            else:
+                x[k] = MARK
+        x["hostile_added"] = MARK
+        edits.append("nested")
+    elif isinstance(x, list):
+        for y in x:
+            _edit_inner(y, edits)
+        x.append(MARK)
+        edits.append("nested")
+
+
+def _edit_nested(m, edits):
+    """edit the containers that are values of a mapping; the mapping itself is left alone"""
+    if isinstance(m, dict):
+        for v in list(m.values()):
+            _edit_inner(v, edits)
+
+
+def wreck_payload(p, level, edits):
+    env = p.get("env") if isinstance(p, dict) else None
+    if not isinstance(env, dict):
+        return
+    subj, res, ctx = env.get("subject"), env.get("resource"), env.get("context")
+    maps = [subj.get("attrs") if isinstance(subj, dict) else None, res.get("attrs") if isinstance(res, dict) else None, ctx]
+    if level == "nested":
+        for m in maps:
+            _edit_nested(m, edits)
+        for ob in p.get("obligations") or []:
+            _edit_inner(ob, edits)
+        return
+    for m in maps:
+        _edit_top(m, edits)
+    if isinstance(subj, dict) and isinstance(subj.get("roles"), list):
+        subj["roles"].append(MARK)
+        subj["roles"].reverse()
+        del subj["roles"][-1:]
+    for m in (subj, res, env, p):
+        _edit_top(m, edits)
+
+
+def redaction_specs(requests, level):
+    """redact_fields / mask_fields over every attribute path that occurs in the requests"""
+    top, nested = set(), set()
+    for rq in requests:
+        for prefix, m in (("subject.attrs", rq["subject"]["attrs"]), ("resource.attrs", rq["resource"]["attrs"]),
+                          ("context", rq["context"])):
+            for k, v in (m or {}).items():
+                if not isinstance(k, str) or not k or any(ch in k for ch in ".[]"):
+                    continue
+                top.add(f"{prefix}.{k}")
+                if isinstance(v, dict):
+                    nested.update(f"{prefix}.{k}.{k2}" for k2 in v if isinstance(k2, str) and k2 and not any(ch in k2 for ch in ".[]"))
+                elif isinstance(v, list):
+                    nested.add(f"{prefix}.{k}[0]")
+    if level == "nested":
+        fields = sorted(nested)
+    else:
+        fields = sorted(top) + ["subject.roles[0]", "subject.id", "resource.id", "subject.attrs.hostile_added",
+                                "resource.attrs.hostile_added", "context.hostile_added"]
+    return [{"type": "redact_fields", "fields": fields[0::2]},
+            {"type": "mask_fields", "fields": fields[1::2], "placeholder": "***"}]
+
+
+def _port(is_async, **methods):
+    """an object whose methods are the given functions — plain, or coroutine functions that yield once first"""
+    ns = {}
+    for name, fn in methods.items():
+        if is_async:
+            def mk(fn):
+                async def m(self, *a, **k):
+                    await asyncio.sleep(0)
+                    return fn(*a, **k)
+                return m
+        else:
+            def mk(fn):
+                def m(self, *a, **k):
+                    return fn(*a, **k)
+                return m
+        ns[name] = mk(fn)
+    return type("HostilePort", (), ns)()
+
+
+def hostile_kw(spec, hostile, mode, requests, edits):
+    """Guard keyword arguments: the collaborators of Collab(spec), each wrapped so that it edits what it is handed"""
+    import logging
+    from rbacx.logging.decision_logger import DecisionLogger
+
+    logging.getLogger("rbacx.audit").addHandler(logging.NullHandler())
+    col = Collab(spec, "sync")
+    kw = dict(col.kw)
+    level = hostile.get("level", "top")
+    is_async = mode == "async"
+    inner_roles, inner_obl, inner_rel, inner_metrics = (kw["role_resolver"], kw["obligation_checker"],
+                                                        kw["relationship_checker"], kw["metrics"])
+    sink = hostile.get("sink")
+    if sink == "mutator":
+        kw["logger_sink"] = _port(is_async, log=lambda payload: wreck_payload(payload, level, edits))
+    elif sink in ("declogger", "declogger_default"):
+        if sink == "declogger":
+            dl = DecisionLogger(redactions=redaction_specs(requests, level), redact_in_place=True)
+        else:
+            dl = DecisionLogger(use_default_redactions=True, redact_in_place=True)
+
+        def dl_log(payload):
+            dl.log(payload)
+            edits.append("declogger")
+        kw["logger_sink"] = _port(is_async, log=dl_log)
+    else:
+        kw["logger_sink"] = None
+
+    if hostile.get("roles") and level == "top":
+        def expand(roles):
+            out = inner_roles.expand(list(roles or [])) if inner_roles is not None else list(roles or [])
+            if isinstance(roles, list):
+                roles.append(MARK)
+                roles.reverse()
+                del roles[-1:]
+                edits.append("roles")
+            return out
+        kw["role_resolver"] = _port(is_async, expand=expand)
+
+    if hostile.get("oblig"):
+        def check(raw, context):
+            ans = inner_obl.check(raw, context)
+            if isinstance(raw, dict):
+                if level == "nested":
+                    for ob in raw.get("obligations") or []:
+                        _edit_inner(ob, edits)
+                else:
+                    for k in ("decision", "obligations", "challenge"):
+                        raw[k] = MARK
+                    raw["hostile_added"] = MARK
+                    edits.append("raw")
+            return ans
+        kw["obligation_checker"] = _port(is_async, check=check)
+
+    if hostile.get("rel") and inner_rel is not None:
+        def rcheck(subject, relation, resource, *, context=None):
+            ans = inner_rel.check(subject, relation, resource, context=context)
+            (_edit_nested if level == "nested" else _edit_top)(context, edits)
+            return ans
+        kw["relationship_checker"] = _port(is_async, check=rcheck)
+
+    if hostile.get("metrics") and level == "top":
+        def inc(name, labels=None):
+            inner_metrics.inc(name, labels)
+            _edit_top(labels, edits)
+
+        def observe(name, value, labels=None):
+            inner_metrics.observe(name, value, labels)
+            _edit_top(labels, edits)
+        kw["metrics"] = _port(is_async, inc=inc, observe=observe)
+    return kw
+
+
+def diff_paths(a, b, path="", out=None, limit=6):
+    """paths at which two JSON-like values differ (first few)"""
+    if out is None:
+        out = []
+    if len(out) >= limit:
+        return out
+    if isinstance(a, dict) and isinstance(b, dict):
+        for k in list(a) + [k for k in b if k not in a]:
+            if k not in a:
+                out.append(f"{path}/{k}: added {b[k]!r}"[:160])
+            elif k not in b:
+                out.append(f"{path}/{k}: removed (was {a[k]!r})"[:160])
+            else:
+                diff_paths(a[k], b[k], f"{path}/{k}", out, limit)
+            if len(out) >= limit:
+                break
+    elif isinstance(a, list) and isinstance(b, list) and len(a) == len(b):
+        for i, (x, y) in enumerate(zip(a, b)):
+            diff_paths(x, y, f"{path}[{i}]", out, limit)
+    elif a != b or type(a) is not type(b):
+        out.append(f"{path}: {a!r} -> {b!r}"[:160])
+    return out
+
+
+def run_hostile(case, T):
+    """each request evaluated twice on one Guard whose collaborators edit what they are handed: the caller's
+    request objects and the policy must stay deep-equal to their snapshots (and keep their containers), the second
+    decision must equal the first, and both the decision of a fresh Guard with inert collaborators."""
+    from rbacx.core.engine import Guard
+    spec, hostile = case["collab"], case["hostile"]
+    out = {"dec1": {}, "dec2": {}, "ref": {}, "mut": [], "edits": {}}
+    ref_spec = dict(spec, cache=False)
+    for ri, req in enumerate(case["requests"]):
+        g0 = Guard(copy.deepcopy(case["policy"]), **Collab(ref_spec, "sync").kw)
+        objs0 = mk_objs(copy.deepcopy(req))
+        out["ref"][str(ri)] = guarded(lambda: dec_dict(asyncio.run(g0.evaluate_async(*objs0))), T)
+    for mode in ("sync", "async"):
+        for fl in HOSTILE_FLAVOURS:
+            policy = copy.deepcopy(case["policy"])
+            pol_ids = idmap(policy)
+            edits = []
+            g = Guard(policy, **hostile_kw(spec, hostile, mode, case["requests"], edits))
+            for ri, req0 in enumerate(case["requests"]):
+                req = copy.deepcopy(req0)
+                objs = mk_objs(req)                  # the request objects hold req's own containers
+                req_ids = idmap(req)
+                k = f"{mode}/{fl}/{ri}"
+                seen = set()
+                for nth, slot in ((1, "dec1"), (2, "dec2")):
+                    out[slot][k] = call_flavour(g, fl, objs, T)
+                    if out[slot][k] == ["!hang"]:
+                        out["aborted_at"] = k
+                        return out
+                    s, a, r, c = objs
+                    now = {"subject": {"id": s.id, "roles": s.roles, "attrs": s.attrs}, "action": a.name,
+                           "resource": {"type": r.type, "id": r.id, "attrs": r.attrs},
+                           "context": c.attrs if c is not None else None}
+                    if "request" not in seen and (now != req0 or req != req0 or idmap(req) != req_ids):
+                        seen.add("request")          # reported once; the second evaluation still runs, on what is left
+                        now = lib.jsonable(now)
+                        out["mut"].append({"at": k, "evaluation": nth, "what": "request", "after": now,
+                                           "diff": diff_paths(req0, now) or ["containers replaced"],
+                                           "nested_only": nested_only_request(req0, now)})
+                    if "policy" not in seen and (policy != case["policy"] or g.policy is not policy
+                                                 or idmap(policy) != pol_ids):
+                        seen.add("policy")
+                        d = diff_paths(case["policy"], lib.jsonable(g.policy), limit=40)
+                        out["mut"].append({"at": k, "evaluation": nth, "what": "policy",
+                                           "diff": d[:6] or ["containers replaced"],
+                                           "nested_only": bool(d) and all(NESTED_POLICY_PATH.search(x) for x in d)})
+                if "policy" in seen:                 # later requests start from the policy as it was given
+                    policy = copy.deepcopy(case["policy"])
+                    pol_ids = idmap(policy)
+                    g = Guard(policy, **hostile_kw(spec, hostile, mode, case["requests"], edits))
+            out["edits"][f"{mode}/{fl}"] = {e: edits.count(e) for e in sorted(set(edits))}
+    return out
+
+
+NESTED_POLICY_PATH = re.compile(r"/obligations\[\d+\]/|/ctx/[^/\[]+[/\[]")
+
+
+def nested_only_request(req0, now):
+    """the request differs from its snapshot only INSIDE containers that are values of the attrs / context
+    mappings (depth >= 2): identity fields, roles, and the key sets and scalar values of the mappings are intact"""
+    try:
+        if (now["subject"]["id"], now["subject"]["roles"], now["action"], now["resource"]["type"], now["resource"]["id"]) != \
+                (req0["subject"]["id"], req0["subject"]["roles"], req0["action"], req0["resource"]["type"], req0["resource"]["id"]):
+            return False
+        for m0, m1 in ((req0["subject"]["attrs"], now["subject"]["attrs"]),
+                       (req0["resource"]["attrs"], now["resource"]["attrs"]), (req0["context"], now["context"])):
+            if not isinstance(m0, dict) or not isinstance(m1, dict):
+                if m0 != m1:
+                    return False
+                continue
+            if set(m0) != set(m1):
+                return False
+            for k in m0:
+                if m0[k] != m1[k] and not (isinstance(m0[k], (dict, list)) and type(m0[k]) is type(m1[k])):
+                    return False
+        return True
+    except Exception:  # noqa: BLE001
+        return False
+
+
 def run_gather(case, T):
     from rbacx.core.engine import Guard
     from concurrent.futures import ThreadPoolExecutor
@@ -1040,6 +1344,8 @@ def child_main():
                 r = run_flavours(case, T)
             elif case["kind"] == "gather":
                 r = run_gather(case, T)
+            elif case["kind"] == "hostile":
+                r = run_hostile(case, T)
             elif case["kind"] == "watchdog":
                 r = run_watchdog(case, T)
             else:
@@ -1062,12 +1368,14 @@ def child_main():
 
 
 def case_cost(c):
+    if c["kind"] == "hostile":
+        return 0.12 * max(1, len(c.get("requests") or []))
     return {"flavours": 0.5, "gather": 0.6, "watchdog": 0.7}.get(c["kind"], 0.1)
 
 
 def run_children(cases, T=T_HANG, nproc=None):
     """results aligned with cases; a case whose child had to be killed gets {'error': 'child_killed'}."""
-    idx = [(i, c) for i, c in enumerate(cases) if c["kind"] in ("flavours", "gather", "watchdog")]
+    idx = [(i, c) for i, c in enumerate(cases) if c["kind"] in ("flavours", "gather", "watchdog", "hostile")]
     results = [None] * len(cases)
     if not idx:
         return results
@@ -1184,6 +1492,100 @@ def judge_flavours(chk, c, r):
         chk.violation("evaluation mutated its inputs: " + m, strip(c), impl=r["mut"], model="deep-equal and identical")
     chk.sample({"case": name, "collab": c["collab"], "request0": c["requests"][0],
                 "decision0": dec.get("sync/async_run/0")}, every=37)
+
+
+NESTED_TAG = "c14-nested-alias"      # KNOWN_FINDINGS entry (property C14) for aliasing below the first level
+
+
+def nested_alias_finding():
+    for f in lib.known_findings("C14"):
+        if f.get("tag") == NESTED_TAG:
+            return f
+    return None
+
+
+def judge_hostile(chk, c, r):
+    name = c.get("name", "?")
+    h = c.get("hostile") or {}
+    level = h.get("level", "top")
+    if "error" in r:
+        if r["error"] == "child_killed":
+            chk.violation("an evaluation entry point did not return with collaborators that edit what they are handed "
+                          "(the child process running this case had to be killed)", strip(c), impl=r, model="returns")
+        else:
+            chk.notes.append(f"harness error on hostile case {name}: {r['error'][:300]}")
+            chk.corr_break("harness could not run a hostile-collaborator case", strip(c), impl=r, theorems=["c14_pure"])
+        return
+    chk.count("hostile:level=" + level)
+    chk.count("hostile:sink=%s" % h.get("sink"))
+    for what in ("roles", "oblig", "rel", "metrics"):
+        if h.get(what):
+            chk.count("hostile:" + what)
+    for fk, e in (r.get("edits") or {}).items():
+        for what, n in e.items():
+            chk.count("hostile_edits:" + what, n)
+    muts = {}
+    for m in r.get("mut") or []:
+        muts.setdefault(m["at"], []).append(m)
+    fails = []          # (key, clause, impl, model, in the class of the nested-aliasing finding?)
+    for k, d1 in r["dec1"].items():
+        mode, fl, ri = k.split("/")
+        ref = r["ref"].get(ri)
+        d2 = r["dec2"].get(k)
+        edited = bool((r.get("edits") or {}).get(f"{mode}/{fl}")) or f"{mode}/{fl}" not in (r.get("edits") or {})
+        nontrivial = edited and isinstance(ref, dict) and (ref.get("allowed") or ref.get("reason") not in ("no_match", "action_mismatch"))
+        chk.mark(("hostile", name, json.dumps(c["collab"], sort_keys=True), json.dumps(h, sort_keys=True), k), bool(nontrivial))
+        chk.count("hostile_flavour:" + fl)
+        in_class = level == "nested" and bool(muts.get(k)) and all(m.get("nested_only") for m in muts[k])
+        for slot, got in (("first", d1), ("second", d2)):
+            if isinstance(got, list) and got[:1] == ["!hang"]:
+                fails.append((k, f"{fl} with {mode} collaborators that edit what they are handed did not return within "
+                              f"{T_HANG}s ({slot} evaluation)", got, ref, False))
+        for m in muts.get(k, []):
+            fails.append((k, "evaluating mutated the caller's %s: a collaborator (%s) edited in place what the engine "
+                          "handed it, and that was not a private copy — after evaluation %d at %s: %s"
+                          % (m["what"], _hostile_desc(h), m["evaluation"], k, "; ".join(m["diff"][:4])),
+                          m, "deep-equal to the snapshot taken before the call", in_class))
+        if d1 == ["!hang"] or d2 == ["!hang"] or d2 is None:
+            continue
+        if d1 != d2:
+            fails.append((k, "the second evaluation of the same request objects on the same Guard gave another decision "
+                          f"than the first ({k}; collaborators edit what they are handed: {_hostile_desc(h)})",
+                          {"first": d1, "second": d2}, {"first": d1, "second": d1}, in_class))
+        elif d1 != ref:
+            fails.append((k, "the decision differs from the one a fresh Guard with inert collaborators gives for the same "
+                          f"policy and request although the collaborators give the same answers ({k}; {_hostile_desc(h)})",
+                          d1, ref, in_class))
+    if not fails:
+        chk.count("hostile:clean")
+        chk.sample({"hostile_case": name, "hostile": h, "collab": c["collab"], "edits": r.get("edits"),
+                    "decision0": r["dec1"].get("sync/async_run/0")}, every=23)
+        return
+    finding = nested_alias_finding()
+    known = [f for f in fails if f[4] and finding is not None and finding.get("status") == "open"]
+    other = [f for f in fails if f not in known]
+    if known:
+        chk.known(finding["id"])
+        chk.count("hostile:known_" + finding["id"])
+    reported = set()
+    for k, clause, impl, model, _ in other:
+        kind = clause[:40]
+        if kind in reported or len(reported) >= 3:       # one report per kind of failure and case
+            continue
+        reported.add(kind)
+        chk.count("hostile:VIOLATION")
+        chk.violation(clause, dict(strip(c), at=k), impl=impl, model=model)
+
+
+def _hostile_desc(h):
+    parts = []
+    if h.get("sink") == "mutator":
+        parts.append("log sink editing its payload")
+    elif h.get("sink"):
+        parts.append("DecisionLogger(redact_in_place=True%s)" % (", use_default_redactions=True" if h["sink"].endswith("default") else ", redactions=<request attribute paths>"))
+    parts += [n for n, f in (("role resolver editing the role list", "roles"), ("obligation checker editing the raw decision", "oblig"),
+                             ("relationship checker editing its context", "rel"), ("metrics sink editing the labels", "metrics")) if h.get(f)]
+    return ", ".join(parts) + "; level " + h.get("level", "top")
 
 
 def judge_gather(chk, c, r):
@@ -1340,6 +1742,8 @@ def check_cases(chk, cases, replay=False):
             judge_flavours(chk, c, r)
         elif c["kind"] == "gather":
             judge_gather(chk, c, r)
+        elif c["kind"] == "hostile":
+            judge_hostile(chk, c, r)
         elif c["kind"] == "watchdog":
             judge_watchdog(chk, c, r, mvs[json.dumps(model_config(c), sort_keys=True)], replay)
             acc = accepts.get(i)
@@ -1366,6 +1770,10 @@ def run(chk):
     chk.rule = ("(a) policies (permit, deny, no match, three algorithms, conditions, roles via resolver, obligations "
                 "met/unmet/custom, rel conditions, policy sets; plus random assemblies) x 6 requests x 3 collaborator "
                 "sets x {sync, async} collaborators x 8 API flavours, compared with evaluate_async under asyncio.run; "
+                "the same policies with collaborators that edit in place what they are handed (log payload/env, "
+                "DecisionLogger(redact_in_place=True), role list, raw decision, relationship context, labels) x {sync, "
+                "async} x 5 API flavours, each request evaluated twice: request and policy vs deep snapshots, second vs "
+                "first decision vs a fresh Guard with inert collaborators; "
                 "50 concurrent evaluations (gather, threads, threads under a loop) on one or two engines vs sequential; "
                 "(b) every entry point x {plain thread, running loop} alone, start;stop, start;check;stop, with a second "
                 "caller, racing starts, with the polling thread free / held in source.load() / held in set_policy, sync "
@@ -1373,7 +1781,8 @@ def run(chk):
                 "configuration, and the observed sequence of lock acquisitions/releases must be a run of the model "
                 "(thorough: every configuration of the theorem's family x {free, mid-check, holding} x {sync, async "
                 "source}); (c) lock skeleton of the source vs the model's. non-trivial = a rule applied (a), every "
-                "(b)/(c) case; distinct = distinct (case, collaborator set, mode, flavour, request) / configuration" % T_HANG)
+                "(b)/(c) case (hostile cases: a rule applied and a collaborator actually edited something); distinct = distinct "
+                "(case, collaborator set, mode, flavour, request) / configuration" % T_HANG)
     chk.assumptions = [
         "threading.RLock/Lock/Event/Thread, asyncio.run and ThreadPoolExecutor behave as modelled (Conc.v section 1)",
         "the lock programs of Conc.v are hand-transcribed from loader.py/engine.py (tied by the skeleton comparison and "
@@ -1382,9 +1791,11 @@ def run(chk):
         "the implementation is observed on sampled schedules (plus two forced ones); only the model covers all schedules",
     ]
     corp = corpus_cases()
-    cases = corp + [{"kind": "skeleton"}, {"kind": "witness"}] + watchdog_cases(chk) + flavour_cases(chk) + gather_cases(chk)
+    cases = (corp + [{"kind": "skeleton"}, {"kind": "witness"}] + watchdog_cases(chk) + flavour_cases(chk)
+             + hostile_cases(chk) + gather_cases(chk))
     chk.extra["cases"] = {"corpus": len(corp), "watchdog": sum(1 for c in cases if c["kind"] == "watchdog"),
                           "flavours": sum(1 for c in cases if c["kind"] == "flavours"),
+                          "hostile": sum(1 for c in cases if c["kind"] == "hostile"),
                           "gather": sum(1 for c in cases if c["kind"] == "gather")}
     check_cases(chk, cases)
     fam = lib.dec(lib.run_model("conc", [lib.model_call("conc.family")])[0])
